@@ -66,6 +66,32 @@ func genLayout(r *vhlib.Rand) (ps int, files []int64, single bool) {
 	return ps, files, false
 }
 
+// genBigLayout: total just above 4 GiB, piece size mostly not a power of two, six live
+// pieces from the one before the piece containing offset 2^32.
+func genBigLayout(r *vhlib.Rand) (ps int, files []int64, larg string) {
+	ps = r.PickInt(49152, 49152, 81920, 16384*7, 32768)
+	k0 := int((int64(1) << 32) / int64(ps))
+	lo, hi := k0-1, k0+4
+	total := int64(hi+1)*int64(ps) - int64(r.PickInt(0, 1, 100, ps/2, ps-1))
+	f0 := int64(lo)*int64(ps) + int64(r.Intn(ps))
+	files = []int64{f0}
+	rem := total - f0
+	nf := 1 + r.Intn(3)
+	for i := 0; i < nf-1 && rem > 2; i++ {
+		l := int64(1 + r.Intn(int(rem)-1))
+		if r.Chance(40) {
+			l = (int64(1)<<32 - (total - rem)) + int64(r.Intn(3)) - 1 // ends at 2^32 -1/0/+1
+			if l <= 0 || l >= rem {
+				l = rem / 2
+			}
+		}
+		files = append(files, l)
+		rem -= l
+	}
+	files = append(files, rem)
+	return ps, files, fmt.Sprintf("%s@%d-%d", layoutArg(files, false), lo, hi)
+}
+
 func layoutArg(files []int64, single bool) string {
 	s := "m:"
 	if single {
@@ -88,25 +114,42 @@ func runCase(seed uint64, caseNo int, rate int) caseOut {
 	ru := torsim.NewRunner()
 	ru.Name = fmt.Sprintf("c02-%d-%d", seed, caseNo)
 	switch x := r.Intn(100); {
-	case x < 12:
-		return runRaceCase(r, ru, rate)
-	case x < 20:
+	case x < 9:
+		torsim.GenRaceCase(r, ru, rate)
+		return caseOut{ru.Lines, ru.Viol, ru.Tags}
+	case x < 13:
+		torsim.GenFullCase(r, ru, rate)
+		return caseOut{ru.Lines, ru.Viol, ru.Tags}
+	case x < 17:
+		torsim.GenFinaliseCase(r, ru, rate)
+		return caseOut{ru.Lines, ru.Viol, ru.Tags}
+	case x < 25:
 		return runFuseCase(r, ru, rate)
 	}
 	ps, files, single := genLayout(r)
+	larg := layoutArg(files, single)
+	big := r.Chance(7)
+	if big {
+		// a sparse torrent of more than 4 GiB: only the pieces around offset 2^32 have
+		// real hashes; the readers' windows straddle 2^32 or lie above it
+		ps, files, larg = genBigLayout(r)
+		single = false
+	}
 	var total int64
 	for _, f := range files {
 		total += f
 	}
 	salt := r.Intn(1000)
-	ru.Exec(fmt.Sprintf("rd new %d %d %d %d %s", ps, total, salt, rate, layoutArg(files, single)))
+	ru.Exec(fmt.Sprintf("rd new %d %d %d %d %s", ps, total, salt, rate, larg))
 	if ru.S == nil {
 		return caseOut{ru.Lines, ru.Viol, ru.Tags}
 	}
-	n := ru.S.N
+	lo := ru.S.Lo              // first piece that can be verified
+	n := ru.S.Hi - ru.S.Lo + 1 // their number
+	base := int64(lo) * int64(ps)
 	// chunks probes (uint32 wrap-around at index == max, aggressive prefetch, clamping)
 	for i := 0; i < 2; i++ {
-		limit := int64(r.Intn(int(total) + 1))
+		limit := base + int64(r.Intn(int(total-base)+1))
 		if r.Chance(40) {
 			limit = total
 		}
@@ -115,18 +158,21 @@ func runCase(seed uint64, caseNo int, rate int) caseOut {
 		case 0:
 			pos = limit - int64(r.Intn(ps))
 		case 1:
-			pos = int64(r.Intn(int(limit)+2)) - 1
+			pos = base + int64(r.Intn(int(limit-base)+2)) - 1
 		case 2:
 			pos = limit / int64(ps) * int64(ps)
 		case 3:
-			pos = int64(r.Intn(n)) * int64(ps)
+			pos = int64(lo+r.Intn(n)) * int64(ps)
 		default:
-			pos = int64(r.Intn(int(limit) + 1))
+			pos = base + int64(r.Intn(int(limit-base)+1))
 		}
 		ru.Exec(fmt.Sprintf("rd chunks %d %d", pos, limit))
 	}
 	// the reader's window: a file, a sub-range, or the whole torrent
 	fi := r.Intn(len(files))
+	if big {
+		fi = 1 + r.Intn(len(files)-1) // file 0 is the 4 GiB of padding below the window
+	}
 	var foff int64
 	for i := 0; i < fi; i++ {
 		foff += files[i]
@@ -135,7 +181,11 @@ func runCase(seed uint64, caseNo int, rate int) caseOut {
 	off, ln := foff, flen
 	switch r.Intn(6) {
 	case 0:
-		off, ln = 0, total
+		off, ln = base, total-base
+		if big {
+			off += int64(r.Intn(ps)) // straddles 2^32 (piece lo+1 contains it)
+			ln = total - off
+		}
 	case 1:
 		if flen > 2 {
 			off = foff + int64(r.Intn(int(flen)/2))
@@ -150,15 +200,18 @@ func runCase(seed uint64, caseNo int, rate int) caseOut {
 	ru.Exec(fmt.Sprintf("rd open %d %d %d", rid, off, ln))
 	for i := 0; i < n; i++ {
 		if r.Chance(40) {
-			ru.Exec(fmt.Sprintf("rd complete %d", i))
+			ru.Exec(fmt.Sprintf("rd complete %d", lo+i))
 		}
 	}
 	cursor := func() (torsim.RInfo, int) {
 		for _, ri := range ru.Readers() {
 			if ri.Rid == rid {
 				cp := int((ri.Offset + ri.Pos) / int64(ps))
-				if cp >= n {
-					cp = n - 1
+				if cp >= lo+n {
+					cp = lo + n - 1
+				}
+				if cp < lo {
+					cp = lo
 				}
 				return ri, cp
 			}
@@ -187,13 +240,13 @@ func runCase(seed uint64, caseNo int, rate int) caseOut {
 			case x < 50:
 				ru.Exec(fmt.Sprintf("rd complete %d", cp))
 			case x < 60:
-				ru.Exec(fmt.Sprintf("rd complete %d", r.Intn(n)))
+				ru.Exec(fmt.Sprintf("rd complete %d", lo+r.Intn(n)))
 			case x < 66:
-				ru.Exec(fmt.Sprintf("rd garbage %d", r.Intn(n)))
+				ru.Exec(fmt.Sprintf("rd garbage %d", lo+r.Intn(n)))
 			case x < 72:
 				ru.Exec(fmt.Sprintf("rd corrupt %d", cp))
 			case x < 84:
-				ru.Exec(fmt.Sprintf("rd evict %d", r.Intn(n)))
+				ru.Exec(fmt.Sprintf("rd evict %d", lo+r.Intn(n)))
 			case x < 92 && !ru.Dead():
 				ru.Exec(fmt.Sprintf("rd cancel %d", rid))
 			case x < 96:
@@ -217,7 +270,7 @@ func runCase(seed uint64, caseNo int, rate int) caseOut {
 			case 0:
 				o = int64(r.Intn(int(ri.Length) + 10))
 			case 1:
-				o = int64(r.Intn(n+1))*int64(ps) - ri.Offset // a piece boundary
+				o = int64(lo+r.Intn(n+1))*int64(ps) - ri.Offset // a piece boundary
 			case 2:
 				wh, o = 1, int64(r.Intn(2*ps))-int64(ps)
 			case 3:
@@ -233,9 +286,9 @@ func runCase(seed uint64, caseNo int, rate int) caseOut {
 			}
 			ru.Exec(fmt.Sprintf("rd seek %d %d %d", rid, o, wh))
 		case x < 72:
-			ru.Exec(fmt.Sprintf("rd complete %d", r.Intn(n)))
+			ru.Exec(fmt.Sprintf("rd complete %d", lo+r.Intn(n)))
 		case x < 84:
-			i := r.Intn(n)
+			i := lo + r.Intn(n)
 			if r.Chance(60) {
 				i = cp
 			}
@@ -245,12 +298,12 @@ func runCase(seed uint64, caseNo int, rate int) caseOut {
 				// a corrupting peer's blocks land in the piece after the cursor's (or
 				// anywhere): allocated, not verified
 				i := cp + 1
-				if i >= n || r.Chance(30) {
-					i = r.Intn(n)
+				if i >= lo+n || r.Chance(30) {
+					i = lo + r.Intn(n)
 				}
 				ru.Exec(fmt.Sprintf("rd garbage %d", i))
 			} else {
-				ru.Exec(fmt.Sprintf("rd corrupt %d", r.Intn(n)))
+				ru.Exec(fmt.Sprintf("rd corrupt %d", lo+r.Intn(n)))
 			}
 		case x < 90:
 			ru.Exec(fmt.Sprintf("rd close %d", rid))
@@ -305,73 +358,6 @@ func runCase(seed uint64, caseNo int, rate int) caseOut {
 	return caseOut{ru.Lines, ru.Viol, ru.Tags}
 }
 
-// runRaceCase: Reads whose TorRequest waits in the queue of a held event loop while pieces
-// are verified, evicted or corrupted; the TorHave is handled before or after the request.
-func runRaceCase(r *vhlib.Rand, ru *torsim.Runner, rate int) caseOut {
-	ps := r.PickInt(16384, 32768)
-	n := 3 + r.Intn(3)
-	total := int64(n*ps - r.PickInt(0, 1, 7000))
-	ru.Exec(fmt.Sprintf("rd new %d %d %d %d s:%d", ps, total, r.Intn(1000), rate, total))
-	if ru.S == nil {
-		return caseOut{ru.Lines, ru.Viol, ru.Tags}
-	}
-	n = ru.S.N
-	nr := 1 + r.Intn(2)
-	for rid := 0; rid < nr; rid++ {
-		ru.Exec(fmt.Sprintf("rdx open %d 0 %d", rid, total))
-	}
-	for cp := 0; cp < n && !torsim.Aborted.Load(); cp++ {
-		// every reader's cursor is at the start of piece cp
-		if r.Chance(25) && cp+1 < n {
-			ru.Exec(fmt.Sprintf("rdx garbage %d", cp+1))
-		}
-		ru.Exec("rdx hold")
-		for rid := 0; rid < nr; rid++ {
-			ru.Exec(fmt.Sprintf("rdx read %d %d", rid, ps))
-		}
-		switch r.Intn(6) {
-		case 0: // verified, notification handled BEFORE the waiting requests
-			ru.Exec(fmt.Sprintf("rdx fin %d", cp))
-			ru.Exec(fmt.Sprintf("rdx release h%d", cp))
-		case 1: // verified, notification queued BEHIND the requests
-			ru.Exec(fmt.Sprintf("rdx complete %d", cp))
-			ru.Exec("rdx release")
-		case 2: // hash failure while the requests wait
-			ru.Exec(fmt.Sprintf("rdx corrupt %d", cp))
-			ru.Exec("rdx release")
-		case 3: // verified then evicted before the requests are handled (stale notification)
-			ru.Exec(fmt.Sprintf("rdx fin %d", cp))
-			ru.Exec(fmt.Sprintf("rdx evict %d", cp))
-			ru.Exec(fmt.Sprintf("rdx release h%d", cp))
-		case 4: // notification first, and a later piece verified as well
-			ru.Exec(fmt.Sprintf("rdx fin %d", cp))
-			if cp+1 < n {
-				ru.Exec(fmt.Sprintf("rdx fin %d", cp+1))
-				ru.Exec(fmt.Sprintf("rdx release h%d h%d", cp+1, cp))
-			} else {
-				ru.Exec(fmt.Sprintf("rdx release h%d", cp))
-			}
-		default:
-			ru.Exec("rdx release")
-		}
-		ru.Exec("rdx settle")
-		// whoever is still parked (legitimately) gets the piece now
-		for try := 0; try < 2 && !ru.IsComplete(cp); try++ {
-			ru.Exec(fmt.Sprintf("rdx complete %d", cp))
-		}
-		ru.Exec("rdx settle")
-		if cp > 0 && r.Chance(40) {
-			ru.Exec(fmt.Sprintf("rdx evict %d", r.Intn(cp)))
-		}
-	}
-	for rid := 0; rid < nr; rid++ {
-		ru.Exec(fmt.Sprintf("rdx close %d", rid))
-	}
-	ru.Exec("rdx settle")
-	ru.Close()
-	return caseOut{ru.Lines, ru.Viol, ru.Tags}
-}
-
 // runFuseCase: 1-3 concurrent reads per handle through the real fuse node methods, some
 // blocked on missing pieces, with per-read contexts the harness cancels.
 func runFuseCase(r *vhlib.Rand, ru *torsim.Runner, rate int) caseOut {
@@ -395,9 +381,41 @@ func runFuseCase(r *vhlib.Rand, ru *torsim.Runner, rate int) caseOut {
 	ru.Exec(fmt.Sprintf("rdx fopen 0 %d", fi))
 	next := 0
 	var out []int
+	type rq struct {
+		off  int64
+		size int
+	}
+	reads := map[int]rq{}
+	var retry []rq // reads that were interrupted: the application / kernel retries them
+	var foff int64
+	for i := 0; i < fi; i++ {
+		foff += files[i]
+	}
 	rounds := 2 + r.Intn(3)
 	for k := 0; k < rounds && !torsim.Aborted.Load(); k++ {
 		nreads := 1 + r.Intn(3)
+		// a read that starts in an available piece and runs into a missing one: it copies
+		// part of its data, then waits
+		if flen > 1 && r.Chance(60) {
+			first, last := int(foff/int64(ps)), int((foff+flen-1)/int64(ps))
+			for i := first; i < last; i++ {
+				if ru.IsComplete(i) && !ru.IsComplete(i+1) {
+					lo := int64(i)*int64(ps) - foff
+					if lo < 0 {
+						lo = 0
+					}
+					hi := int64(i+1)*int64(ps) - foff // first byte of the missing piece
+					off := lo + int64(r.Intn(int(hi-lo)))
+					size := int(hi-off) + 1 + r.Intn(ps)
+					ru.Exec(fmt.Sprintf("rdx fread 0 %d %d %d", next, off, size))
+					reads[next] = rq{off, size}
+					out = append(out, next)
+					next++
+					nreads--
+					break
+				}
+			}
+		}
 		for j := 0; j < nreads; j++ {
 			off := int64(r.Intn(int(flen) + 1))
 			switch r.Intn(4) {
@@ -408,6 +426,7 @@ func runFuseCase(r *vhlib.Rand, ru *torsim.Runner, rate int) caseOut {
 			}
 			size := r.PickInt(1, 4096, 16384, ps, ps+5, 2*ps, 131072)
 			ru.Exec(fmt.Sprintf("rdx fread 0 %d %d %d", next, off, size))
+			reads[next] = rq{off, size}
 			out = append(out, next)
 			next++
 		}
@@ -416,6 +435,7 @@ func runFuseCase(r *vhlib.Rand, ru *torsim.Runner, rate int) caseOut {
 			case x < 35 && len(out) > 0:
 				j := r.Intn(len(out))
 				ru.Exec(fmt.Sprintf("rdx fcancel %d", out[j]))
+				retry = append(retry, reads[out[j]])
 				out = append(out[:j], out[j+1:]...)
 			case x < 75:
 				ru.Exec(fmt.Sprintf("rdx complete %d", r.Intn(n)))
@@ -437,6 +457,16 @@ func runFuseCase(r *vhlib.Rand, ru *torsim.Runner, rate int) caseOut {
 			}
 			ru.Exec("rdx fsettle")
 			out = out[:0]
+			// retries of the interrupted reads, at the same offset and right behind
+			for _, q := range retry {
+				ru.Exec(fmt.Sprintf("rdx fread 0 %d %d %d", next, q.off, q.size))
+				next++
+				ru.Exec("rdx fsettle")
+				ru.Exec(fmt.Sprintf("rdx fread 0 %d %d %d", next, q.off+int64(q.size), 4096))
+				next++
+				ru.Exec("rdx fsettle")
+			}
+			retry = retry[:0]
 		}
 	}
 	for _, id := range out {
